@@ -3,6 +3,7 @@
 package verifchecks
 
 import (
+	rslopts "github.com/gittuf/gittuf/experimental/gittuf/options/rsl"
 	"context"
 	"fmt"
 	"os"
@@ -34,7 +35,7 @@ type c15Case struct {
 	Local      []c15Entry `json:"local"`
 	Remote     []c15Entry `json:"remote"`
 	LocalExtra []string   `json:"local_extra,omitempty"` // refs that get an unrecorded extra local commit (ahead / diverged)
-	Op         string     `json:"op"`                    // reconcile | sync | sync-overwrite
+	Op         string     `json:"op"`                    // reconcile | sync | sync-overwrite | record-remote
 }
 
 var c15Refs = []string{"refs/heads/main", "refs/heads/feature", "refs/heads/release", "refs/heads/docs"}
@@ -84,7 +85,7 @@ func genC15(rt *rapid.T) c15Case {
 	if rapid.IntRange(0, 2).Draw(rt, "extra") == 0 {
 		c.LocalExtra = []string{rapid.SampledFrom(c15Refs).Draw(rt, "extraref")}
 	}
-	c.Op = rapid.SampledFrom([]string{"reconcile", "reconcile", "sync", "sync-overwrite"}).Draw(rt, "op")
+	c.Op = rapid.SampledFrom([]string{"reconcile", "reconcile", "sync", "sync-overwrite", "record-remote"}).Draw(rt, "op")
 	return c
 }
 
@@ -437,6 +438,114 @@ func runC15(t *testing.T, s *kit.Session, c c15Case) *kit.Failure {
 				}
 			}
 		}
+	case "record-remote":
+		// RecordRSLEntryForReference with a remote: sync, record the current local
+		// state of a reference, sync again
+		ref := ""
+		if len(c.LocalExtra) > 0 {
+			ref = c.LocalExtra[0]
+		} else {
+			for _, r := range c15Refs {
+				if _, ok := localRefsBefore[r]; ok {
+					ref = r
+					break
+				}
+			}
+		}
+		if ref == "" {
+			s.Observe(c, false, classes...)
+			return nil
+		}
+		tipBefore := localRefsBefore[ref]
+		opErr := repo.RecordRSLEntryForReference(context.Background(), ref, false, rslopts.WithRecordRemote("origin"))
+		rsl.VerifResetCache()
+		localRefs, remoteRefs := allRefs(local), allRefs(remote)
+		localChain, err := kit.WalkChain(local, kit.RSLRef)
+		if err != nil {
+			return fail("chain-unreadable", "%v", err)
+		}
+		if d := kit.CheckChain(localChain); d != "" {
+			return fail("chain-invalid", "%s", d)
+		}
+		remoteChain, err := kit.WalkChain(remote, kit.RSLRef)
+		if err != nil {
+			return fail("chain-unreadable", "remote: %v", err)
+		}
+		if d := kit.CheckChain(remoteChain); d != "" {
+			return fail("chain-invalid", "remote: %s", d)
+		}
+		if !kit.IsPrefix(kit.ChainIDs(remoteChainBefore), kit.ChainIDs(remoteChain)) {
+			return fail("remote-log-rewritten", "the remote log lost entries")
+		}
+		if diverged {
+			// the logs have diverged and nobody asked to overwrite: refused, nothing changes
+			classes = append(classes, "record_refused_diverged")
+			if opErr == nil {
+				return fail("diverged-not-refused", "local and remote logs have diverged but recording with the remote succeeded")
+			}
+			if d := diffRefs(localRefsBefore, localRefs); len(d) != 0 {
+				return fail("refused-but-changed", "recording was refused (%v) but local references changed: %v", opErr, d)
+			}
+			if d := diffRefs(remoteRefsBefore, remoteRefs); len(d) != 0 {
+				return fail("refused-but-changed", "recording was refused (%v) but remote references changed: %v", opErr, d)
+			}
+			break
+		}
+		if opErr != nil {
+			// e.g. the remote recorded something new for a reference that has an
+			// unrecorded local commit: the entries recorded before are all still there
+			classes = append(classes, "record_failed")
+			if !kit.IsPrefix(kit.ChainIDs(localChainBefore), kit.ChainIDs(localChain)) && !kit.IsPrefix(kit.ChainIDs(remoteChainBefore), kit.ChainIDs(localChain)) {
+				return fail("entries-lost-or-changed", "recording failed (%v) and the local log no longer extends what it or the remote held", opErr)
+			}
+			break
+		}
+		// success: base = the longer of the two logs (one is a prefix of the other)
+		base := localChainBefore
+		if len(remoteChainBefore) > len(base) {
+			base = remoteChainBefore
+		}
+		if !kit.IsPrefix(kit.ChainIDs(base), kit.ChainIDs(localChain)) {
+			return fail("entries-lost-or-changed", "after recording, the local log does not extend the log both sides agreed on")
+		}
+		added := localChain[len(base):]
+		tipAfter := localRefs[ref]
+		wantNew := true
+		if latest, ok := c15LatestUnskipped(base)[ref]; ok && latest == tipAfter {
+			wantNew = false // the latest unskipped entry already records this state
+		}
+		switch {
+		case wantNew && (len(added) != 1 || added[0].Kind != "reference" || added[0].Ref != ref || added[0].Target != tipAfter):
+			return fail("wrong-entry-recorded", "expected exactly one new reference entry for %s -> %s, the log grew by %d entries %v", ref, tipAfter, len(added), c15Abs(localChain)[len(base):])
+		case !wantNew && len(added) != 0:
+			return fail("wrong-entry-recorded", "the latest entry for %s already records %s but %d entries were added", ref, tipAfter, len(added))
+		}
+		if tipAfter != tipBefore {
+			// the reference may only have been fast-forwarded to what the remote recorded
+			want, ok := c15LatestUnskipped(remoteChainBefore)[ref]
+			if !ok || want != tipAfter {
+				return fail("ref-moved-to-unrecorded-state", "local %s moved from %s to %s which is not its latest unskipped remote entry (%q)", ref, tipBefore, tipAfter, want)
+			}
+		}
+		if fmt.Sprint(kit.ChainIDs(remoteChain)) != fmt.Sprint(kit.ChainIDs(localChain)) {
+			return fail("log-not-published", "recording with a remote succeeded but the remote log is not the local log")
+		}
+		// entries are published together with the references they name
+		for r, want := range c15LatestUnskippedSuffix(localChain, len(remoteChainBefore)) {
+			got, ok := remoteRefs[r]
+			if ok {
+				if _, err := remote.Git(nil, "merge-base", "--is-ancestor", want, got); err != nil {
+					ok = false
+				}
+			}
+			if !ok {
+				return fail("entry-published-without-ref", "entry for %s (target %s) was published but the remote reference is %q", r, want, remoteRefs[r])
+			}
+		}
+		if wantNew {
+			classes = append(classes, "record_new_entry_published")
+			nontrivial = true
+		}
 	}
 	s.Observe(c, nontrivial, classes...)
 	return nil
@@ -473,6 +582,6 @@ func TestC15(t *testing.T) {
 		kit.DoReplay(s, t, rf, run)
 		return
 	}
-	s.SetRule("rapid on real repositories (a bare remote and a local repository with it as 'origin'): a shared log prefix of 1-3 entries, local-only and remote-only suffixes of 0-4 entries each {reference entries on new commits, annotations (skip or not) naming shared or own-suffix entries, propagation entries} over disjoint or overlapping refs, optionally an unrecorded extra local commit on some ref (local ahead / diverged), then ReconcileLocalRSLWithRemote, Sync or Sync with overwrite. Oracle (reconcile): conflict => refused and nothing changed; otherwise local log = remote log ++ the local-only entries in order with the same (kind, ref, target, upstream fields) and annotations naming the images of what they named; no ref other than the log moves. Oracle (sync): a refused sync changes nothing; a local ref moves only to the target of its latest unskipped remote entry, only if the remote recorded something new for it, and without overwrite only by fast-forward; a local log ahead is published together with the refs its unskipped entries name; the remote log never loses entries. Non-trivial: diverged logs with a local-only annotation or propagation entry, or an unrecorded local commit")
+	s.SetRule("rapid on real repositories (a bare remote and a local repository with it as 'origin'): a shared log prefix of 1-3 entries, local-only and remote-only suffixes of 0-4 entries each {reference entries on new commits, annotations (skip or not) naming shared or own-suffix entries, propagation entries} over disjoint or overlapping refs, optionally an unrecorded extra local commit on some ref (local ahead / diverged), then ReconcileLocalRSLWithRemote, Sync, Sync with overwrite, or RecordRSLEntryForReference with the remote (sync, record, sync). Oracle (reconcile): conflict => refused and nothing changed; otherwise local log = remote log ++ the local-only entries in order with the same (kind, ref, target, upstream fields) and annotations naming the images of what they named; no ref other than the log moves. Oracle (sync): a refused sync changes nothing; a local ref moves only to the target of its latest unskipped remote entry, only if the remote recorded something new for it, and without overwrite only by fast-forward; a local log ahead is published together with the refs its unskipped entries name; the remote log never loses entries. Oracle (record with remote): diverged logs => refused and nothing changed; success => local log = agreed log ++ exactly one reference entry for the ref's current state (none if already recorded), remote log = local log, every newly published entry's ref is on the remote. Non-trivial: diverged logs with a local-only annotation or propagation entry, or an unrecorded local commit")
 	kit.Campaign(s, t, "reconcile-sync", "sync", s.Budget(96, 4_000), genC15, run)
 }
